@@ -180,6 +180,8 @@ def decoder_rules(chk, cx, rules):
     ck = cx.find_checksum()
     kinds = {}
     for p in paths:
+        if p.kind == "loopback":
+            continue        # a loop's back edge after its invariant stabilised: not an outcome
         if p.kind != "return":
             chk.ob(rules["total"], "Frame::from_bytes has no panicking path besides the discharged unwraps (%s)" % p.info, False, key="dec:panic:%s" % p.info, where=where)
             continue
@@ -228,6 +230,10 @@ def decoder_rules(chk, cx, rules):
             fr = pc[0][6][0]
             okf, whyf = frame_binding(cx, fr, cap)
             chk.ob(rules["bind"], "%s: the frame is built from the parsed address / type / data groups (base 16, data pairs in order)" % kind, okf, key="dec:%s:binding" % kind, where=where, detail=whyf)
+            its = [(t, val) for t, val in dec if is_data_iteration(t, cap) and t[1] == "has_next"]
+            if its:
+                # the data vector is filled by a loop over the pairs: it must run until the iterator is exhausted (no early exit)
+                chk.ob(rules["bind"], "%s: the loop over the data pairs runs to exhaustion" % kind, its[-1][1] == 0 and all(v == 1 for _, v in its[:-1]), key="dec:%s:loop-exhausted" % kind, where=where)
             cks = [(t, val) for t, val in dec if t[0] == "app" and t[1] in ("Ne", "Eq") and norm(cc[0][3]) in t[2]]
             okk = len(cks) == 1 and is_parsed([x for x in cks[0][0][2] if x != norm(cc[0][3])][0], cap, "checksum", "u8")
             equal = okk and ((cks[0][1] == 1) == (cks[0][0][1] == "Eq"))
@@ -237,6 +243,7 @@ def decoder_rules(chk, cx, rules):
                 chk.ob(rules["bind"], "Ok returns exactly the frame whose payload was checksummed", norm(v[4][0]) == norm(fr), key="dec:ok:value", where=where, detail=fmt_term(v[4][0])[:100])
                 extra = [t for t, val in dec if t != capd and (t, val) not in cnt_tests and (t, val) not in cks]
                 extra = [t for t in extra if not (t[0] == "app" and t[1] == "Gt" and t[2][1] == mk_int(255, "usize"))]
+                extra = [t for t in extra if not is_data_iteration(t, cap)]
                 chk.ob(rules["must"], "Ok: no other test decides acceptance (accept iff shape, length and checksum are right)", not extra, key="dec:ok:extra-tests", where=where, detail=str([fmt_term(t)[:80] for t in extra[:2]]))
             else:
                 chk.ob(rules["must"], "BadChecksum is returned exactly when the computed and provided checksums differ, after the length test", okk and not equal and after_len, key="dec:badsum-cond", where=where)
@@ -266,6 +273,8 @@ def count_term(cap):
 def is_count(t, cap):
     """len(collect(map(chunks(group data, 2), parse_hex)))"""
     t = norm(t)
+    if t[0] == "app" and t[1] == "Div" and t[2][1] == mk_int(2, "usize") and t[2][0] == ("len", norm(group_bytes(cap, "data"))):
+        return True     # digits / 2: the data group is a whole number of hex pairs (regex rule `group data`, unit 2)
     if t[0] != "len":
         return False
     c = t[1]
@@ -276,8 +285,59 @@ def is_count(t, cap):
     return is_data_vec(c, cap)
 
 
+def is_data_iteration(t, cap):
+    """has_next(chunks(group data, 2), k): the `for` loop over the data pairs asking for the next pair
+    (or the std fact 1 <= len(chunk) <= 2 the evaluator attaches to the yielded chunk)"""
+    if t[0] == "app" and t[1] in ("Le", "Ge") and t[2][0][0] == "len" and t[2][1][0] == "int":
+        return data_piece_src(t[2][0][1], cap)
+    if not (t[0] == "app" and t[1] == "has_next"):
+        return False
+    ch = t[2][0]
+    return ch[0] == "iter" and ch[1] in ("chunks", "chunks_exact") and ch[3] == mk_int(2, "usize") and ch[2] == norm(group_bytes(cap, "data"))
+
+
+def data_piece_src(t, cap):
+    """t == bytes of the generic chunk of chunks(group data, 2) / chunks_exact(group data, 2)"""
+    t = norm(t)
+    if t[0] == "proj" and t[2] == ("deref",):
+        t = t[1]
+    if t[0] != "item":
+        return False
+    ch = t[1]
+    return ch[0] == "iter" and ch[1] in ("chunks", "chunks_exact") and ch[3] == mk_int(2, "usize") and ch[2] == norm(group_bytes(cap, "data"))
+
+
+def parsed_piece(t, cap):
+    """t == parse_hex::<u8>(generic data chunk) as the evaluator renders the inlined call"""
+    t = norm(t)
+    if t[0] != "unwrap" or not (t[1][0] == "app" and t[1][1] == "from_str_radix:u8" and t[1][2][1] == mk_int(16, "u32")):
+        return False
+    s = t[1][2][0]
+    if s[0] == "proj" and s[2] == ("deref",):
+        s = s[1]
+    return s[0] == "unwrap" and s[1][0] == "app" and s[1][1] == "from_utf8" and data_piece_src(s[1][2][0], cap)
+
+
+def is_data_loop_vec(c, cap):
+    """a vector built by a `for` loop pushing parse_hex::<u8>(chunk) for every chunk: k unrolled pushes and/or the loop summary"""
+    if c[0] != "seq":
+        return False
+    for it in c[1]:
+        if it[0] == "elem":
+            if not parsed_piece(it[1], cap):
+                return False
+        elif it[0] == "mapped_all":
+            if not (len(it[1]) == 1 and parsed_piece(it[1][0][1], cap)):
+                return False
+        else:
+            return False
+    return True
+
+
 def is_data_vec(c, cap):
     c = norm(c)
+    if is_data_loop_vec(c, cap):
+        return True     # (that the loop runs to exhaustion is checked on the path: decoder_rules, `dec:loop-exhausted`)
     if not (c[0] == "app" and c[1].startswith("collect:") and "Vec<u8>" in c[1]):
         return False
     it = c[2][0]
@@ -399,6 +459,15 @@ def discharge_unwrap(t, cap, gs, info):
         if g and g["always"]:
             return True, "group `%s` lies on every match path of the regex" % name
         return False, "group `%s` is not on every match path (or does not exist)" % name
+    dg = gs.get("data")
+    if t[0] == "app" and t[1] == "from_utf8" and data_piece_src(t[2][0], cap):
+        if dg and dg["hex_only"]:
+            return True, "a chunk of group `data` consists of ASCII hex digits, hence valid UTF-8"
+        return False, "group `data` is not hex-only"
+    if t[0] == "app" and t[1] == "from_str_radix:u8" and parsed_piece(("unwrap", t), cap):
+        if dg and dg["hex_only"] and dg["unit"] == 2:
+            return True, "group `data` is a whole number of hex pairs, so every chunk of 2 is exactly 2 hex digits, which parse as u8"
+        return False, "group `data` is not a whole number of hex pairs"
     if t[0] == "app" and t[1] == "from_utf8":
         src = t[2][0]
         name = group_of(src, capn)
